@@ -163,7 +163,9 @@ def gen_live(ctx, per_variant, n_match):
     # between; every connection is judged on its own (history-free)
     seqs = [('exact=127.0.0.1', '127.0.0.2,127.0.0.2,127.0.0.2'),
             ('wc=127.0.0.1', '127.0.0.2,127.0.0.3,127.0.0.2,127.0.0.3,127.0.0.3'),
-            ('set=127.0.0.1+127.0.0.4', '127.0.0.2,127.0.0.1,127.0.0.2,127.0.0.2,127.0.0.4,127.0.0.2,127.0.0.1')]
+            ('set=127.0.0.1+127.0.0.4', '127.0.0.2,127.0.0.1,127.0.0.2,127.0.0.2,127.0.0.4,127.0.0.2,127.0.0.1'),
+            # @D = set_decode_level between connections: the filter stays what the constructor was given
+            ('exact=127.0.0.1', '127.0.0.2,@D,127.0.0.2,127.0.0.1,@D,127.0.0.3')]
     for api, variant, ctor in VARIANTS:
         for flt, peers in seqs:
             lines.append(f'{api} {variant} {ctor} 127.0.0.1 {flt} {peers}')
@@ -172,7 +174,9 @@ def gen_live(ctx, per_variant, n_match):
             flt = gen_filter(r, pool)
             peers = []
             for _ in range(r.randrange(4, 8)):
-                peers.append(peers[-1] if peers and r.random() < 0.45 else r.choice(pool))
+                peers.append(peers[-1] if peers and peers[-1] != '@D' and r.random() < 0.45 else r.choice(pool))
+                if r.random() < 0.15:
+                    peers.append('@D')
             lines.append(f'{api} {variant} {ctor} 127.0.0.1 {flt} {",".join(peers)}')
     # ONE C-ABI filter object, several servers created from it (every order of the three variants, pairs, twice the same),
     # optionally rodbus_address_filter_add afterwards, then the object is destroyed; only then the servers are probed
@@ -392,7 +396,7 @@ def run(ctx):
             api, variant, ctor, bind, flt, peers = ln.split()
             parsed.append((api, variant, ctor, bind, flt, peers.split(',')))
         model = model_eval(ctx, ['Base.Show', 'Gen.ServerCtors', 'Model.Filter'], SEQ_FN,
-                             [f'({coq_filter(p[4])}, [{"; ".join(coq_ip(seen_as(p[3], x)) for x in p[5])}])' for p in parsed],
+                             [f'({coq_filter(p[4])}, [{"; ".join(coq_ip(seen_as(p[3], x)) for x in p[5] if x != "@D")}])' for p in parsed],
                              case_type='fspec * list ip', preamble=LIVE_PRE, per_shard=100)
         if any(m == 'GUARD?' for m in model):
             ctx.oblige('accept-guard-is-the-filter-test', False, 'the regenerated guard of the accept arm has a conjunct besides filter.matches (Gen/ServerCtors.v accept_guard): the model cannot predict sequences')
@@ -400,18 +404,25 @@ def run(ctx):
         for ln, p, i, m in zip(live, parsed, impl, model):
             api, variant, ctor, bind, flt, peers = p
             got = i.split(',')
-            mod = m.split(',') if m is not None else [None] * len(peers)
+            mod_real = iter(m.split(',') if m else [])
+            mod = [('D' if x == '@D' else (next(mod_real, None) if m is not None else None)) for x in peers]
             if i.startswith('FAIL') or i == 'PANIC' or len(got) != len(peers):
                 n_live_bad += 1
                 ctx.oblige('live-scenario-ran', False, f'{ln}: {i}')
                 continue
             for j, (peer, g, mm) in enumerate(zip(peers, got, mod)):
+                if peer == '@D':
+                    outcome_classes['sequence.set_decode_level'] = outcome_classes.get('sequence.set_decode_level', 0) + 1
+                    if g != 'D':
+                        n_live_bad += 1
+                        ctx.oblige('live-scenario-ran', False, f'{ln}: set_decode_level: {g}')
+                    continue
                 n_probes += 1
                 want = 'S' if spec_admits(flt, seen_as(bind, peer)) else 'C'
                 k = f'{api}.{variant}.{ctor}.{want}'
                 outcome_classes[k] = outcome_classes.get(k, 0) + 1
                 if j > 0:
-                    k = 'sequence.' + ('repeat' if peers[j - 1] == peer else 'other') + '.' + want
+                    k = 'sequence.' + ('repeat' if peers[j - 1] == peer else ('after-set_decode_level' if '@D' in peers[:j] else 'other')) + '.' + want
                     outcome_classes[k] = outcome_classes.get(k, 0) + 1
                 if g != want:
                     n_live_bad += 1
